@@ -391,7 +391,16 @@ pub fn core_obs<K: TKey>(e: &Enr<K>) -> Value {
     let verify = guarded("verify", &mut panics, || e.verify());
     let pk = guarded("public_key", &mut panics, || K::pub_bytes(&e.public_key()));
     let nid_pk = guarded("nodeid_from_pk", &mut panics, || NodeId::from(e.public_key()).raw());
+    // is the record's own encoding accepted again by the decoder of its key type, as an equal record (C05)
+    let again = guarded("decode_own_encoding", &mut panics, || {
+        let mut buf: &[u8] = &enc;
+        match <Enr<K> as alloy_rlp::Decodable>::decode(&mut buf) {
+            Ok(d) => buf.is_empty() && d == *e && d.seq() == e.seq() && d.signature() == e.signature(),
+            Err(_) => false,
+        }
+    });
     json!({
+        "again": opt(again, |b| json!(b)),
         "seq": bytes_json(&seq),
         "pairs": pairs_json(&pairs),
         "sig": bytes_json(&sig),
